@@ -163,6 +163,11 @@ func (m *Method) compile() error {
 	if err := m.compileOutput(); err != nil {
 		return err
 	}
+	if ch := m.Channel; ch != nil {
+		if err := ch.compile(); err != nil {
+			return err
+		}
+	}
 	if err := m.compileType(); err != nil {
 		return err
 	}
